@@ -71,7 +71,7 @@ pub fn engine_run(case: &SqlCase, sql: &str) -> vf_df::RunOutput {
 }
 
 fn decorrelation_rule_failed(msg: &str) -> bool {
-    ["'scalar_subquery_to_join' failed", "'decorrelate_predicate_subquery' failed", "'decorrelate_lateral_join' failed"].iter().any(|r| msg.contains(r)) && msg.contains("No field named")
+    ["'scalar_subquery_to_join' failed", "'decorrelate_predicate_subquery' failed", "'decorrelate_lateral_join' failed"].iter().any(|r| msg.contains(r)) // any schema error raised by a decorrelation rule ("No field named …", "… would be ambiguous")
 }
 
 fn nullability_mismatch(out: &vf_df::RunOutput) -> bool {
@@ -190,7 +190,8 @@ pub fn filter_above_empty_grouping_set(q: &Query) -> bool {
     fn set(e: &SetExpr, found: &mut bool) {
         match e {
             SetExpr::Select(s) => {
-                if s.having.is_some() && has_empty_grouping_set(&s.group_by) {
+                // HAVING over ROLLUP/CUBE/GROUPING SETS(..,()) or over a global aggregate (e.g. `HAVING 0 <> (SELECT count(..) ..)`)
+                if s.having.is_some() && agg_with_empty_set(s) {
                     *found = true;
                 }
                 if s.where_.is_some() && s.from.as_ref().map(derived_empty_set).unwrap_or(false) {
@@ -268,7 +269,14 @@ pub fn filter_above_join_duplicate_names(q: &Query) -> bool {
                     let mut cs = vec![];
                     conjuncts(w, &mut cs);
                     let dup = cols.iter().enumerate().any(|(i, (r1, n1))| cols.iter().skip(i + 1).any(|(r2, n2)| n1 == n2 && r1 != r2));
-                    if has_scalar && dup {
+                    fn has_outer(t: &TableRef) -> bool {
+                        match t {
+                            TableRef::Join { kind, left, right, .. } => matches!(kind, JoinKind::Left | JoinKind::Right | JoinKind::Full) || has_outer(left) || has_outer(right),
+                            _ => false,
+                        }
+                    }
+                    // the conjunct stays above the join: it holds a scalar subquery, or the join is an outer join
+                    if dup && (has_scalar || s.from.as_ref().map(has_outer).unwrap_or(false)) {
                         *found = true;
                     }
                 }
@@ -327,6 +335,46 @@ pub fn has_quantified(q: &Query) -> bool {
     let mut found = false;
     refsql::visit_exprs(q, &mut |e| {
         if matches!(e, Expr::Quantified { .. }) {
+            found = true
+        }
+    });
+    found
+}
+
+/// a derived table with OFFSET but no LIMIT directly under an aggregated / DISTINCT select
+/// (known finding `nested-offset-only-under-aggregate`)
+pub fn nested_offset_only_under_aggregate(q: &Query) -> bool {
+    fn off_only(t: &TableRef) -> bool {
+        match t {
+            TableRef::Derived { q, .. } => q.offset.is_some() && q.limit.is_none(),
+            TableRef::Join { left, right, .. } => off_only(left) || off_only(right),
+            _ => false,
+        }
+    }
+    fn set(e: &SetExpr, found: &mut bool) {
+        match e {
+            SetExpr::Select(s) => {
+                let agg = s.distinct || !matches!(s.group_by, refsql::GroupBy::None) || s.items.iter().any(|i| refsql::eval::contains_agg(&i.expr));
+                if agg && s.from.as_ref().map(off_only).unwrap_or(false) {
+                    *found = true;
+                }
+            }
+            SetExpr::SetOp { left, right, .. } => {
+                set(left, found);
+                set(right, found)
+            }
+            SetExpr::Query(_) => {}
+        }
+    }
+    let mut found = false;
+    refsql::visit_queries(q, &mut |qq| set(&qq.body, &mut found));
+    found
+}
+
+pub fn has_subquery_predicate(q: &Query) -> bool {
+    let mut found = false;
+    refsql::visit_exprs(q, &mut |e| {
+        if matches!(e, Expr::Exists { .. } | Expr::InSubquery { .. } | Expr::Quantified { .. }) {
             found = true
         }
     });
@@ -1016,6 +1064,9 @@ pub fn shape_signature(q: &Query) -> Option<String> {
     if pred_subquery_correlated_global_agg(q) {
         return Some("pred-subquery-correlated-global-aggregate".into());
     }
+    if nested_offset_only_under_aggregate(q) {
+        return Some("nested-offset-only-under-aggregate".into());
+    }
     if in_list_conjunction(q) {
         return Some("in-list-conjunction-folded-to-false".into());
     }
@@ -1067,8 +1118,20 @@ impl Property for C01 {
         }
         // outcome-keyed signatures: construct present AND the engine answers with exactly that internal error
         let (bt, cw, nu, wi, cs, co) = (has_bool_test(q), has_searched_case(q), has_nested_union(q), has_window(q), has_correlated_scalar(q), has_coalesce(q));
-        if bt || cw || nu || wi || cs || co {
-            let out = engine_run(case, &refsql::to_sql(q));
+        let sp = has_subquery_predicate(q);
+        if bt || cw || nu || wi || cs || co || sp {
+            // the engine may panic here (outside the runner's guard): then there is no outcome-keyed signature,
+            // `run` will hit the same panic under the guard and report it
+            let out = match std::panic::catch_unwind(std::panic::AssertUnwindSafe(|| engine_run(case, &refsql::to_sql(q)))) {
+                Ok(o) => o,
+                Err(payload) => {
+                    let msg = payload.downcast_ref::<String>().cloned().or_else(|| payload.downcast_ref::<&str>().map(|s| s.to_string())).unwrap_or_default();
+                    if sp && msg.contains("unexpected join type: RightMark") {
+                        return Some("sort-pushdown-rightmark-panic".into());
+                    }
+                    return None;
+                }
+            };
             if nullability_mismatch(&out) {
                 if bt {
                     return Some("nullability-mismatch:bool-test".into());
